@@ -58,7 +58,7 @@ class Mon:
         import joserfc.rfc7516.models as m1
         import joserfc.rfc7518.jwe_algs as m2
         import joserfc.rfc7518.oct_key as m3
-        self.mods = [(m, m.secrets) for m in (m1, m2, m3)]
+        self.mods = [(m, m.secrets) for m in (m1, m2, m3) if hasattr(m, "secrets")]  # diagnostic shim: absent name = nothing to observe
         for m, real in self.mods:
             m.secrets = SecretsProxy(real, self.draws)
         self.tr = Tracer(lambda n: n.endswith(("EncModel.generate_cek", "EncModel.generate_iv")), with_args=False).start()
@@ -75,6 +75,8 @@ class Bag:
     def __init__(self, ctx, config, kind, size=None, bits=True, min_size=None):
         self.ctx, self.config, self.kind, self.size, self.bits, self.min_size = ctx, config, kind, size, bits, min_size
         self.seen: dict[bytes, int] = {}
+        self.infer_size = False
+        self.size_for_bits = None
         self.n = 0
         self.ones = None
         self.first = []
@@ -95,19 +97,22 @@ class Bag:
         ctx.nontrivial((self.config, self.kind, v))
         if len(self.first) < 200:
             self.first.append(int.from_bytes(v[:8].ljust(8, b"\0"), "big") ^ (len(v) << 56))
-        if self.bits and self.size:
+        if self.bits and self.size is None and self.infer_size:
+            self.size_for_bits = self.size_for_bits or len(v)
+        sz = self.size or self.size_for_bits
+        if self.bits and sz:
             if self.ones is None:
-                self.ones = [0] * (self.size * 8)
-            if len(v) == self.size:
+                self.ones = [0] * (sz * 8)
+            if len(v) == sz:
                 x = int.from_bytes(v, "big")
-                for b in range(self.size * 8):
+                for b in range(sz * 8):
                     if (x >> b) & 1:
                         self.ones[b] += 1
 
     def finish(self):
         ctx = self.ctx
         ctx.bag(f"{self.config}|{self.kind}", self.first)
-        if not (self.bits and self.ones and self.n >= 256):
+        if not (self.bits and self.ones and self.n >= 250):
             return
         n = self.n
         tol = 7 * math.sqrt(n) / 2
@@ -163,7 +168,8 @@ def history(mon: Mon, config: dict, N: int):
         if a in rjwe.GCMKW:
             bags["kwiv"] = Bag(ctx, name, "gcmkw-iv", 12)
         if a in rjwe.PBES2:
-            bags["p2s"] = Bag(ctx, name, "p2s", None, bits=False, min_size=8)
+            bags["p2s"] = Bag(ctx, name, "p2s", None, bits=True, min_size=8)
+            bags["p2s"].infer_size = True
     ctx.cell("history", form, algs[0], enc)
     pt = b"the same plaintext every time"
     not_from_draw = 0
@@ -283,6 +289,65 @@ def keygen_history(ctx, kind, N):
     ctx.count("histories")
 
 
+def forked_processes(ctx, mon):
+    """processes created by fork() after the parent has already encrypted: their IV / CEK / epk / salt values must differ too"""
+    import os
+    j = J.load()
+    if not hasattr(os, "fork"):
+        return
+    confs = [("A128KW", "A128GCM", gen.new_oct(128)), ("ECDH-ES", "A128CBC-HS256", gen.new_ec("P-256")), ("PBES2-HS256+A128KW", "A256GCM", gen.oct_from(b"password-fork")),
+             ("A256GCMKW", "A192GCM", gen.new_oct(256)), ("dir", "XC20P", gen.new_oct(256))]
+    keys = [(a, e, j.key(gen.public_jwk(k) if k["kty"] != "oct" else k)) for a, e, k in confs]
+
+    def produce(n):
+        out = []
+        for a, e, k in keys:
+            for _ in range(n):
+                t = j.jwe.encrypt_compact({"alg": a, "enc": e}, b"fork", k, algorithms=[a, e])
+                p = t.split(".")
+                h = json.loads(b64u_dec_lenient(p[0]))
+                out.append([a, p[1][:48], p[2], (h.get("epk") or {}).get("x"), h.get("p2s"), h.get("iv")])
+        return out
+
+    produce(2)   # the parent has used the library before forking
+    pipes = []
+    for c in range(3):
+        r, w = os.pipe()
+        pid = os.fork()
+        if pid == 0:
+            try:
+                os.close(r)
+                data = json.dumps(produce(30)).encode()
+                with os.fdopen(w, "wb") as f:
+                    f.write(data)
+            finally:
+                os._exit(0)
+        os.close(w)
+        pipes.append((pid, r))
+    results = []
+    for pid, r in pipes:
+        with os.fdopen(r, "rb") as f:
+            data = f.read()
+        os.waitpid(pid, 0)
+        try:
+            results.append(json.loads(data))
+        except Exception:
+            ctx.note("a forked child produced no data")
+    seen = {}
+    for ci, res in enumerate(results):
+        for alg, ek, iv, epk, p2s, kwiv in res:
+            ctx.ev()
+            ctx.count("forked_values")
+            for kind, v in (("iv", iv), ("encrypted-key", ek if alg not in ("dir", "ECDH-ES") else None), ("epk", epk), ("p2s", p2s), ("gcmkw-iv", kwiv)):
+                if not v:
+                    continue
+                ctx.nontrivial(("fork", kind, v))
+                if (kind, alg, v) in seen and seen[(kind, alg, v)] != ci:
+                    ctx.violation(f"repeated-across-forked-processes:{kind}", f"{kind} {v[:24]} of {alg} appears in forked child {seen[(kind, alg, v)]} and child {ci}", {"kind": kind, "alg": alg})
+                seen[(kind, alg, v)] = ci
+    ctx.count("forked_children", len(results))
+
+
 def configs(tier):
     out = []
     for enc in g.ENCS:
@@ -322,6 +387,8 @@ def run_shard(ctx):
             history(mon, c, 200)
         for kind in ("oct:128", "EC:P-256", "OKP:X25519"):
             keygen_history(ctx, kind, 200)
+        if ctx.shard % 4 == 0:
+            forked_processes(ctx, mon)
         cs = configs(ctx.tier)
         for idx, c in enumerate(cs):
             if idx % ctx.nshards != ctx.shard:
@@ -360,7 +427,7 @@ def post_merge(info, viol, vcount, inconclusive):
         inconclusive.append(f"only {compared} values compared across processes")
 
 
-REQUIRE = [("encryptions", 30000, "encryptions in histories"), ("values_monitored", 60000, "values through the distinctness/size monitor"),
+REQUIRE = [("forked_children", 9, "forked child processes compared"), ("encryptions", 30000, "encryptions in histories"), ("values_monitored", 60000, "values through the distinctness/size monitor"),
            ("bit_tests_passed", 40, "per-bit frequency tests evaluated"), ("keys_generated", 5000, "generated keys"), ("histories", 60, "histories completed")]
 
 
